@@ -15,10 +15,10 @@ import Thanos.Generated.Facts
                          anywhere; `C35_history` lifts it to all histories;
    * `C35_complete`      a Sync that returns nil leaves every eligible local block recorded and
                          complete in the bucket;
-   * `C35_progress`      after any history, a crash-free Sync returns nil — proved for the
-                         configurations that do not run the overlap check (`allowOutOfOrderUploads`
-                         or no compacted uploads) and, with the overlap check, under the explicit
-                         hypothesis that the check passes (`C35_progress_checked`).
+   * `C35_progress_all`  after any history, a crash-free Sync over pairwise non-overlapping local
+                         blocks returns nil, in every configuration (the overlap check included);
+                         `C35_progress`: without the overlap check (`allowOutOfOrderUploads` or no
+                         compacted uploads) from any state whatsoever, overlapping blocks or not.
 -/
 namespace Thanos.Shipper
 open Thanos.Bucket
@@ -287,11 +287,142 @@ theorem C35_progress (cfg : Cfg) (hcfg : cfg.allowOOO = true ∨ cfg.uploadCompa
   simp only [h1]
   simpa using h2
 
-/-- Full-strength progress statement (every configuration). -/
+-- ---------------------------------------------------------------- progress with the overlap check
+
+theorem doUpload_keys {locals : List LBlock} (cfg : Cfg) {b : LBlock} (hb : b ∈ locals) (a : Acc)
+    (chk : Option (List (Int × Int))) (h : KeysLocal locals a.bkt) :
+    KeysLocal locals (doUpload cfg b a chk).acc.bkt := by
+  have := keysLocal_upload hb a.budget a.bkt h
+  unfold doUpload
+  simp only
+  split
+  · exact this
+  · split <;> exact this
+
+theorem step_keys {locals : List LBlock} (cfg : Cfg) (hasU : List Nat) {b : LBlock} (hb : b ∈ locals) (a : Acc)
+    (h : KeysLocal locals a.bkt) : KeysLocal locals (stepBlock cfg locals hasU b a).acc.bkt := by
+  unfold stepBlock
+  split
+  · exact h
+  · split
+    · exact h
+    · split
+      · exact h
+      · split
+        · exact h
+        · split
+          · exact h
+          · split
+            · exact h
+            · exact doUpload_keys cfg hb a _ h
+
+theorem loop_keys {locals : List LBlock} (cfg : Cfg) (hasU : List Nat) : ∀ (bs : List LBlock) (a : Acc),
+    (∀ b ∈ bs, b ∈ locals) → KeysLocal locals a.bkt → KeysLocal locals (loop cfg locals hasU bs a).acc.bkt
+  | [], a, _, h => h
+  | b :: rest, a, hbs, h => by
+    have hs := step_keys cfg hasU (hbs b (by simp)) a h
+    unfold loop
+    cases hstep : stepBlock cfg locals hasU b a with
+    | abort a' => simpa [hstep, Step.acc] using hs
+    | cont a' =>
+      simp only
+      exact loop_keys cfg hasU rest a' (fun b hb => hbs b (List.mem_cons_of_mem _ hb)) (by simpa [hstep, Step.acc] using hs)
+
+theorem sync_keys {locals : List LBlock} (cfg : Cfg) (k : Option Nat) (st : State)
+    (h : KeysLocal locals st.bkt) : KeysLocal locals (sync cfg locals k st).st.bkt := by
+  have := loop_keys cfg (st.file.getD []) locals ⟨k, st.bkt, [], none, 0, []⟩ (fun _ hb => hb) h
+  unfold sync
+  simp only
+  cases hloop : loop cfg locals (st.file.getD []) locals ⟨k, st.bkt, [], none, 0, []⟩ with
+  | abort a => simpa [hloop, Step.acc] using this
+  | cont a => simpa [hloop, Step.acc] using this
+
+theorem history_keys {locals : List LBlock} {cfg : Cfg} {st : State} (h : History cfg locals st) :
+    KeysLocal locals st.bkt := by
+  induction h with
+  | init => intro p hp; simp at hp
+  | sync st k _ ih => exact sync_keys cfg k st ih
+  | lostFile st _ ih => exact ih
+
+/-- the invariant of a crash-free Sync over non-overlapping local blocks -/
+structure ProgInv (locals : List LBlock) (a : Acc) : Prop where
+  budget : a.budget = none
+  errs : a.uploadErrs = 0
+  keys : KeysLocal locals a.bkt
+  chk : ∀ ms, a.checker = some ms → LocalRanges locals ms
+
+theorem overlapCheck_passes {locals : List LBlock} (hno : NoOverlap locals) (cfg : Cfg) {b : LBlock}
+    (hb : b ∈ locals) {a : Acc} (h : ProgInv locals a) :
+    ∃ c', overlapCheck cfg locals b a = some c' ∧ ∀ ms, c' = some ms → LocalRanges locals ms := by
+  have cons : ∀ ms, LocalRanges locals ms → overlapping ((b.minT, b.maxT) :: ms) = false := by
+    intro ms hms
+    apply not_overlapping_of_local hno
+    intro r hr
+    rcases List.mem_cons.mp hr with rfl | hr'
+    · exact ⟨b, hb, rfl⟩
+    · exact hms r hr'
+  unfold overlapCheck
+  split
+  · cases hc : a.checker with
+    | some ms =>
+      have hms := h.chk ms hc
+      simp only [cons ms hms]
+      exact ⟨some ms, by simp, fun ms' e => by cases e; exact hms⟩
+    | none =>
+      obtain ⟨rs, hrs, hl⟩ := checkerSync_some h.keys
+      have : checkerSync locals a.bkt = some rs := by simpa [checkerSync, codeSkipPartial] using hrs
+      simp only [this, cons rs hl]
+      exact ⟨some rs, by simp, fun ms' e => by cases e; exact hl⟩
+  · exact ⟨a.checker, rfl, h.chk⟩
+
+theorem step_progress {locals : List LBlock} (hno : NoOverlap locals) (cfg : Cfg) (hasU : List Nat)
+    {b : LBlock} (hb : b ∈ locals) {a : Acc} (h : ProgInv locals a) :
+    ∃ a', stepBlock cfg locals hasU b a = .cont a' ∧ ProgInv locals a' := by
+  unfold stepBlock
+  split
+  · exact ⟨_, rfl, ⟨h.budget, h.errs, h.keys, h.chk⟩⟩
+  · split
+    · exact ⟨_, rfl, h⟩
+    · split
+      · exact ⟨_, rfl, h⟩
+      · split
+        · rename_i hc; simp [h.budget, crashed] at hc
+        · split
+          · exact ⟨_, rfl, ⟨h.budget, h.errs, h.keys, h.chk⟩⟩
+          · obtain ⟨c', hc', hl⟩ := overlapCheck_passes hno cfg hb h
+            simp only [hc']
+            have hk := keysLocal_upload hb a.budget a.bkt h.keys
+            unfold doUpload
+            simp only [h.budget, (exec_none _ _).2.2, if_true]
+            refine ⟨_, rfl, ⟨by simp [spend], h.errs, ?_, hl⟩⟩
+            simpa [h.budget] using hk
+
+theorem loop_progress {locals : List LBlock} (hno : NoOverlap locals) (cfg : Cfg) (hasU : List Nat) :
+    ∀ (bs : List LBlock) (a : Acc), (∀ b ∈ bs, b ∈ locals) → ProgInv locals a →
+    ∃ a', loop cfg locals hasU bs a = .cont a' ∧ ProgInv locals a'
+  | [], a, _, h => ⟨a, rfl, h⟩
+  | b :: rest, a, hbs, h => by
+    obtain ⟨a1, h1, p1⟩ := step_progress hno cfg hasU (hbs b (by simp)) h
+    obtain ⟨a2, h2, p2⟩ := loop_progress hno cfg hasU rest a1 (fun b hb => hbs b (List.mem_cons_of_mem _ hb)) p1
+    exact ⟨a2, by simp [loop, h1, h2], p2⟩
+
+/-- Full-strength progress statement (every configuration, overlap check included). -/
 def C35_progress_full : Prop :=
-  ∀ (cfg : Cfg) (locals : List LBlock), LocalsOK locals →
-    (∀ a ∈ locals, ∀ b ∈ locals, a ≠ b → ¬ (a.minT ≤ b.minT ∧ b.minT < a.maxT)) →   -- no two local blocks overlap
+  ∀ (cfg : Cfg) (locals : List LBlock), NoOverlap locals →
     ∀ st, History cfg locals st → (sync cfg locals none st).ok = true
+
+/-- **C35 (progress, every configuration)**: if no two local blocks overlap in time, then after
+    ANY history of crashed Syncs and lost shipper files a crash-free Sync returns nil (and so,
+    by `C35_complete`, leaves every eligible block recorded and complete).  This is the theorem
+    that was false before the repair of the overlap checker (`C35_wedge_before_repair`). -/
+theorem C35_progress_all : C35_progress_full := by
+  intro cfg locals hno st hist
+  have hk := history_keys hist
+  obtain ⟨a, h1, p⟩ := loop_progress hno cfg (st.file.getD []) locals ⟨none, st.bkt, [], none, 0, []⟩
+    (fun _ hb => hb) ⟨rfl, rfl, hk, by intro ms h; cases h⟩
+  unfold sync
+  simp only [h1]
+  simpa using p.errs
 
 -- ---------------------------------------------------------------- the defect that was repaired
 
